@@ -9,6 +9,8 @@ import Ptn.C02.TruncWF
 import Ptn.C02.BuildLabels
 import Ptn.C02.Progress
 import Ptn.C02.Value
+import Ptn.C02.SimHistory
+import Ptn.C02.SimDemo
 /-! Property theorems for C02.  Only property theorems and non-vacuity examples live here (part 1,
 the Node machine, is in `NodeProps.lean`, imported here); helper lemmas are in `Lemmas.lean`,
 `NodeSpec.lean`, `TTNLemmas.lean`, `ContractSpec.lean`, ….
@@ -641,5 +643,59 @@ example : (11, 21) ∈ vDemo.bonds ∧ 7 ∉ vDemo.ids ∧ vDim (vDemo.next + 1)
   ⟨by simp [vDemo], by simp [vDemo], rfl⟩
 
 end ValueDemo
+
+/-! ### Part 8 — simulation of the structural model by the value-level edits (`Sim.lean`, `SimContract.lean`,
+`SimSplit.lean`, `SimOps.lean`, `SimIdent.lean`, `SimHistory.lean`): non-vacuity of `contract_nodes_simulates`,
+`split_nodes_simulates`, `insert_identity_simulates`, `change_node_identifier_simulates`, `replace_tensor_simulates`,
+`access_simulates`, `simstep_sound`, `simstep_complete`, `structural_history_preserves_value`.
+The instance (`SimDemo.lean`): the two-node network `1 — 2` built from nothing (bond of dimension 3, open axes `0, 1`
+at node 1 and `2` at node 2) with integer tensors; `g` gives the two ends of the bond the labels 50 and 51. -/
+
+section SimDemoExamples
+open Ptn.Ein Ptn.C03 SimDemo
+
+/-- the premises of `contract_nodes_simulates` hold on the demo instance: a well-formed, label-consistent structural
+state built from nothing, a well-formed valued network related to it, an admissible contraction that succeeds -/
+example : t0.WF ∧ t0.LWF ∧ v0.WF ∧ RSim SimDemo.dim SimDemo.e SimDemo.g t0 v0 ∧
+    (3 = 2 ∨ 3 = 1 ∨ t0.N 3 = none) ∧ t0.contractNodes 2 1 3 = some t1 :=
+  ⟨t0_wf.1, t0_wf.2, v0_wf, rsim0, Or.inr (Or.inr rfl), rfl⟩
+
+/-- the premises of `split_nodes_simulates` hold after that contraction: `SplitAdm`, the split succeeds, the fresh
+labels `100, 101` have the new bond dimension 3, and there is an exact factorisation (`fact2`: the two original
+tensors) along `out = [2]`, `in = [0, 1]` -/
+example : (∃ X, SplitAdm t1 3 X ⟨none, [], [0], false⟩ ⟨none, [], [1, 2], true⟩ 3 4) ∧
+    t1.splitNodes 3 ⟨none, [], [0], false⟩ ⟨none, [], [1, 2], true⟩ 3 4 3 = some t2 ∧
+    (SimDemo.dim v1.next = 3 ∧ SimDemo.dim (v1.next + 1) = 3) ∧
+    splitOutLegs SimDemo.e g1 t2 3 3 4 = [2] ∧ splitInLegs SimDemo.e g1 t2 3 3 4 = [0, 1] ∧
+    Nonempty (SplitFact SimDemo.dim (v1.tens 3) (splitOutLegs SimDemo.e g1 t2 3 3 4)
+      (splitInLegs SimDemo.e g1 t2 3 3 4) v1.next (v1.next + 1)) :=
+  ⟨adm2, rfl, ⟨rfl, rfl⟩, outLegs2, inLegs2, ⟨fact2⟩⟩
+
+/-- the premises of `insert_identity_simulates` hold on the demo instance: `7` is unused, the insertion between the
+child `2` and the parent `1` succeeds, the fresh labels have the dimension of the subdivided bond -/
+example : t0.N 7 = none ∧ (∃ t', t0.insertIdentity 2 1 7 = some t') ∧
+    (∀ ax, t0.Leg 2 1 ax → SimDemo.dim v0.next = ax.dim ∧ SimDemo.dim (v0.next + 1) = ax.dim) := by
+  refine ⟨rfl, ⟨_, rfl⟩, ?_⟩
+  intro ax hl
+  unfold TTN.Leg at hl
+  rw [t0_legPairs] at hl
+  simp at hl
+  subst hl
+  exact ⟨rfl, rfl⟩
+
+/-- the premises of `structural_history_preserves_value` (and of `simstep_sound` at every step) hold for the history
+"contract (2, 1) -> 3; split 3 with the exact factorisation `fact2`; rename 4 -> 5; access 5; replace_tensor(5) with a
+permutation" — which covers `change_node_identifier_simulates`, `access_simulates`, `replace_tensor_simulates` — so
+its conclusion holds: the final valued network is related to the final structural state and has the value of `v0`. -/
+example : ∃ t' g' v', SimRun SimDemo.dim SimDemo.e t0 SimDemo.g v0
+      [.contract 2 1 3, .split 3 ⟨none, [], [0], false⟩ ⟨none, [], [1, 2], true⟩ 3 4 3, .rename 5 4, .access 5,
+       .rtp 5 (some [2, 0, 1])] t' g' v' ∧
+    t'.WF ∧ v'.WF ∧ RSim SimDemo.dim SimDemo.e g' t' v' ∧ ∀ σ, v'.value SimDemo.dim σ = v0.value SimDemo.dim σ := by
+  obtain ⟨t', g', v', hr⟩ := simrun
+  obtain ⟨_, _, w, _, vw, s, _, val⟩ :=
+    structural_history_preserves_value SimDemo.dim SimDemo.e t0_wf.1 t0_wf.2 v0_wf rsim0 hr
+  exact ⟨t', g', v', hr, w, vw, s, val⟩
+
+end SimDemoExamples
 
 end Ptn.C02
